@@ -40,7 +40,10 @@ const (
 
 var (
 	errUnknownTimerType = errors.New("unknown metric timer type")
-	ms                  = float64(time.Millisecond) / float64(time.Second)
+	// errTimerTypeMismatch is reported when a name already registered for a
+	// summary is requested as a histogram or vice versa.
+	errTimerTypeMismatch = errors.New("metric already registered as another kind of timer or histogram")
+	ms                   = float64(time.Millisecond) / float64(time.Second)
 )
 
 // DefaultHistogramBuckets is the default histogram buckets used when
@@ -470,6 +473,9 @@ func (r *reporter) summaryVec(
 	defer r.Unlock()
 
 	if s, ok := r.timers[id]; ok {
+		if s.summary == nil {
+			return nil, errTimerTypeMismatch
+		}
 		return s.summary, nil
 	}
 
@@ -502,6 +508,9 @@ func (r *reporter) histogramVec(
 	defer r.Unlock()
 
 	if h, ok := r.timers[id]; ok {
+		if h.histogram == nil {
+			return nil, errTimerTypeMismatch
+		}
 		return h.histogram, nil
 	}
 
